@@ -319,6 +319,64 @@ def modpow_temporaries(chk):
     chk.floor('modpow call sites judged', judged, 8)
 
 
+def client_keyx_padding(chk):
+    from .. import irf
+    """TLS RSA key exchange, client side (RFC 5246 7.4.7.1, PKCS#1 v1.5 type 2): EM = 00 02 PS 00 PMS with PS made of *non-zero* random
+    bytes.  make_pms_rsa() fills PS from the DRBG and then re-draws zero bytes in a loop: that loop must visit every byte of PS, i.e.
+    run from offset 2 up to the offset of the 00 separator (a zero byte left in PS makes a conforming server reject the message, for
+    about 1 handshake in 128 per uncovered byte).  Decided on symbolic forms over the modulus length nlen: separator at nlen - 49,
+    PS = [2, 2 + fill length), loop bound."""
+    from .. import sym
+    R = 'keyx-padding-nonzero-covers-ps'
+    src, fn = 'src/ssl/ssl_hs_client.c', 'make_pms_rsa'
+    u = build.load_unit(src)
+    F = next((irf.Func(u, f) for f in u['functions'] if f['name'] == fn and f.get('blocks')), None)
+    if F is None:
+        raise AnalysisBroken('%s vanished' % fn)
+    S = sym.Sym(F, leaf_vars=('nlen',))
+    pad = irf.Layouts(u).field('br_ssl_client_context', 'eng.pad')
+    if pad is None:
+        raise AnalysisBroken('eng.pad vanished')
+    P = pad[0]
+
+    def rel(t):
+        """(coefficient of nlen, coefficient of u, constant) of an address / value relative to ctx + P, or None"""
+        if t[0] != 'aff':
+            return None
+        d = dict(t[1])
+        cn = d.pop(('var', 'nlen'), 0)
+        cu = d.pop(('var', 'u'), 0)
+        base = d.pop(('var', 'ctx'), 0) + d.pop(('arg', 0), 0)
+        if d:
+            return None
+        return cn, cu, t[2] - (P if base else 0), base
+    sep = fill = bound = None
+    for i in F.insts.values():
+        if i['op'] == 'store' and i['ops'][0]['k'] == 'c' and i['ops'][0]['v'] == 0 and i.get('size', 1) == 1:
+            r = rel(S.sym(i['ops'][1]))
+            if r and r[0] == 1 and r[3]:
+                sep = (r[2], i)
+        elif i['op'] == 'call' and i.get('callee') == 'br_hmac_drbg_generate':
+            a, ln = rel(S.sym(i['ops'][1])), rel(S.sym(i['ops'][2]))
+            if a and ln and a[:3] == (0, 0, 2) and a[3] and ln[0] == 1:
+                fill = (ln[2], i)
+        elif i['op'] == 'icmp' and i['pred'] == 'ult':
+            a, b = S.sym(i['ops'][0]), rel(S.sym(i['ops'][1]))
+            if a == S.atom(('var', 'u')) and b and b[0] == 1 and not b[3]:
+                bound = (b[2], i)
+    inst = '%s: the zero-byte re-draw loop runs over the whole padding string PS (offsets 2 .. separator)' % fn
+    if sep is None or fill is None or bound is None:
+        chk.violation(R, inst, F.where(), 'separator store / PS fill / loop bound not identified (%s, %s, %s)' % (sep is not None, fill is not None, bound is not None),
+                      key='%s shape' % R)
+        return
+    det = 'separator at nlen%+d, PS filled over [2, nlen%+d), loop bound nlen%+d' % (sep[0], 2 + fill[0], bound[0])
+    if 2 + fill[0] == sep[0] == bound[0]:
+        chk.ok(R, inst, F.where(bound[1]), det)
+    else:
+        chk.violation(R, inst, F.where(bound[1]), det + ': %s' % ('the last %d byte(s) of PS keep whatever the DRBG produced, including 0x00' % (sep[0] - bound[0])
+                      if bound[0] < sep[0] else 'the three extents disagree'), key=R)
+
+
 def run(tier):
     chk = report.Check('C10', tier,
                        'Static rejection obligations for the RSA functions of all four implementations (i15, i31, i32, i62), the shared '
@@ -352,6 +410,7 @@ def run(tier):
     zero_stripping_direction(chk)
     pubexp_width_gate(chk)
     modpow_temporaries(chk)
+    client_keyx_padding(chk)
     from .c11 import decode_mod_covers_source
     decode_mod_covers_source(chk)
     chk.floor("C10 obligations", len(chk.obls), 90)
